@@ -349,7 +349,7 @@ func init() {
 				}
 				c05RunCase(w, s.f, rules, subset, rev)
 			}}
-			return []*sup.Space{c05CloneSpace(), query, run}
+			return []*sup.Space{c05CloneSpace(), c05LifeSpace(c), query, run}
 		},
 	})
 }
